@@ -159,11 +159,28 @@ def enqueue (cfg : Cfg) (b : BSess) (m : Message) (g : Nat) : Enq :=
   else
     (if b.storedQ.length < cfg.queue then .ok { b with storedQ := b.storedQ ++ [m] } else .full)
 
-/-- outcome of a modelled piece of code -/
-inductive Res where
+/-- outcome of a deterministic piece of code -/
+inductive Res1 where
   | ok (s : BState)
   | queueFull (s : BState)          -- `ErrQueueFull` for the calling client
   | unsupported (why : String)
+
+/-- outcome of a stimulus: the possible successor states (the code's own nondeterminism) -/
+inductive Res where
+  | ok (ss : List BState)
+  | unsupported (why : String)
+
+def Res.one (s : BState) : Res := .ok [s]
+
+def Res.bind (r : Res) (f : BState → Res) : Res :=
+  match r with
+  | .unsupported w => .unsupported w
+  | .ok ss =>
+    ss.foldl (fun acc s =>
+      match acc, f s with
+      | .unsupported w, _ => .unsupported w
+      | _, .unsupported w => .unsupported w
+      | .ok a, .ok b => .ok (a ++ b)) (.ok [])
 
 /-- fan-out over the temporary sessions -/
 def fanTemp (cfg : Cfg) (c : ConnId) (m : Message) (g : Nat) :
@@ -192,7 +209,7 @@ def fanStored (cfg : Cfg) (c : ConnId) (m : Message) (g : Nat) :
     else fanStored cfg c m g rest ((k, b) :: acc)
 
 /-- `MemoryBackend.Publish` (the acknowledgement is the caller's business) -/
-def backendPublish (s : BState) (c : ConnId) (m : Message) : Res :=
+def backendPublish (s : BState) (c : ConnId) (m : Message) : Res1 :=
   let s := { s with bevents := s.bevents ++ [BEvent.publish c m] }
   -- retained messages
   let s := if m.retain then
@@ -223,29 +240,55 @@ def backendTerminate (s : BState) (c : ConnId) : BState :=
   let id : ClientId := match s.conn? c with | some x => x.id | none => []
   { s with temp := Assoc.del s.temp c, activeClients := Assoc.del s.activeClients id }
 
+/-- A dying dequeuer that holds a token may still take one queued message (Go `select` picks
+    freely between a ready queue and `Closing()`): it is stored as outgoing (QoS > 0 after capping;
+    the write then fails, so it shows up as a resend later) or lost (QoS 0). -/
+def lastDequeue (s : BState) (c : ConnId) (x : BConn) : List BState :=
+  if !(x.running ∧ x.deqHand) then [s] else
+  match s.sessOf c with
+  | none => [s]
+  | some b =>
+    let take (b' : BSess) (m : Message) : BState :=
+      let out := applyQOS b m
+      if out.qos = 0 then s.setSessOf c b'
+      else
+        let (nid, ms) := b'.sess.nextID
+        s.setSessOf c { b' with sess := ms.savePacket .outgoing (.publish out false nid) }
+    let fromStored : List BState :=
+      match b.storedQ with
+      | h :: rest => [take { b with storedQ := rest } h]
+      | [] => []
+    let fromTemp : List BState :=
+      match b.tempQ with
+      | [] => []
+      | (g, _) :: _ => (b.tempQ.takeWhile (·.1 = g)).map (fun e => take { b with tempQ := b.tempQ.erase e } e.2)
+    s :: (fromStored ++ fromTemp)
+
 /-- `die` / `Close` followed by `cleanup`: the connection is closed, the will is published if
     the client had been accepted and did not disconnect, the backend is told. -/
 def kill (s : BState) (c : ConnId) : Res :=
   match s.conn? c with
-  | none => .ok s
+  | none => .one s
   | some x =>
-    if !x.alive then .ok s else
-    let s := s.setConn c { x with alive := false, procOut := x.procOut, running := false }
-    let r : Res := match x.phase, x.will with
-      | .connected, some w =>
-        (match backendPublish s c w with
-         | .ok s' => .ok s'
-         | .queueFull s' => .ok s'         -- error is only logged
-         | .unsupported e => .unsupported e)
-      | _, _ => .ok s
-    match r with
-    | .ok s => if x.phase ≠ .connecting then .ok (backendTerminate s c) else .ok s
-    | r => r
+    if !x.alive then .one s else
+    let alts := lastDequeue s c x
+    Res.bind (.ok alts) fun s =>
+      let s := s.setConn c { x with alive := false, running := false }
+      let r : Res := match x.phase, x.will with
+        | .connected, some w =>
+          (match backendPublish s c w with
+           | .ok s' => .one s'
+           | .queueFull s' => .one s'         -- error is only logged
+           | .unsupported e => .unsupported e)
+        | _, _ => .one s
+      Res.bind r fun s => if x.phase ≠ .connecting then .one (backendTerminate s c) else .one s
 
-def bind (r : Res) (f : BState → Res) : Res :=
-  match r with
-  | .ok s => f s
-  | r => r
+/-- run `backendPublish` for client `c`; `ErrQueueFull` kills the client -/
+def publishThen (s : BState) (c : ConnId) (m : Message) (k : BState → Res) : Res :=
+  match backendPublish s c m with
+  | .ok s' => k s'
+  | .queueFull s' => kill s' c
+  | .unsupported e => .unsupported e
 
 /-- queue an acknowledgement: immediately (synchronous backend) or later / never -/
 def ackVia (s : BState) (c : ConnId) (p : Packet) (pre : BState → BState) : BState :=
@@ -295,7 +338,7 @@ def setupAndConnack (s : BState) (c : ConnId) (x : BConn) (id : ClientId) (clean
     let s := { s with temp := Assoc.set s.temp c b, bevents := s.bevents ++ [BEvent.setup c false] }
     let x := startConn s.cfg { x with sref := .temp, will := will, running := true,
                                       procOut := x.procOut ++ [.connack false 0] }
-    .ok (s.setConn c (retake x))
+    .one (s.setConn c (retake x))
   else
     -- the existing session: stored first, else the temporary session of the active client
     let existing : Option ConnId :=
@@ -307,8 +350,8 @@ def setupAndConnack (s : BState) (c : ConnId) (x : BConn) (id : ClientId) (clean
     -- take over: close the old connection and wait for its cleanup
     let r : Res := match existing with
       | some oc => kill s oc
-      | none => .ok s
-    bind r fun s =>
+      | none => .one s
+    Res.bind r fun s =>
     if clean then
       let b := newSess c
       let s := { s with stored := Assoc.del s.stored id, temp := Assoc.set s.temp c b,
@@ -316,7 +359,7 @@ def setupAndConnack (s : BState) (c : ConnId) (x : BConn) (id : ClientId) (clean
                         bevents := s.bevents ++ [BEvent.setup c false] }
       let x := startConn s.cfg { x with sref := .temp, will := will, running := true,
                                         procOut := x.procOut ++ [.connack false 0] }
-      .ok (s.setConn c (retake x))
+      .one (s.setConn c (retake x))
     else
       match Assoc.get s.stored id with
       | some b =>
@@ -327,7 +370,7 @@ def setupAndConnack (s : BState) (c : ConnId) (x : BConn) (id : ClientId) (clean
         let s := { s with stored := Assoc.set s.stored id b,
                           activeClients := Assoc.set s.activeClients id c,
                           bevents := s.bevents ++ [BEvent.setup c true] }
-        .ok (s.setConn c (retake x))
+        .one (s.setConn c (retake x))
       | none =>
         let b := newSess c
         let s := { s with stored := Assoc.set s.stored id b,
@@ -335,7 +378,7 @@ def setupAndConnack (s : BState) (c : ConnId) (x : BConn) (id : ClientId) (clean
                           bevents := s.bevents ++ [BEvent.setup c false] }
         let x := startConn s.cfg { x with sref := .stored id, will := will, running := true,
                                           procOut := x.procOut ++ [.connack false 0] }
-        .ok (s.setConn c (retake x))
+        .one (s.setConn c (retake x))
 
 /-- retained messages for one filter, queued as one unordered group; `none` = own queue full -/
 def queueRetained (cfg : Cfg) (b : BSess) (ms : List Message) (g : Nat) : Option BSess :=
@@ -345,7 +388,7 @@ def queueRetained (cfg : Cfg) (b : BSess) (ms : List Message) (g : Nat) : Option
     if b.tempQ.length < cfg.queue then queueRetained cfg { b with tempQ := b.tempQ ++ [(g, m)] } rest g
     else none
 
-def subscribeRetained (s : BState) (c : ConnId) : List Subscription → Res
+def subscribeRetained (s : BState) (c : ConnId) : List Subscription → Res1
   | [] => .ok s
   | sub :: rest =>
     match s.sessOf c with
@@ -362,9 +405,9 @@ def recv (s : BState) (c : ConnId) (p : Packet) : Res :=
   match s.conn? c with
   | none => .unsupported "unknown connection"
   | some x =>
-    if !x.alive then .ok s else
+    if !x.alive then .one s else
     match x.phase with
-    | .disconnected => .ok s
+    | .disconnected => .one s
     | .connecting =>
       (match p with
        | .connect id _ka u pw clean will _v =>
@@ -387,8 +430,9 @@ def recv (s : BState) (c : ConnId) (p : Packet) : Res :=
             let s := s.setSessOf c b
             let s := ackVia s c (.suback (subs.map (·.qos)) id) (fun s => s)
             (match subscribeRetained s c subs with
+             | .ok s => .one s
              | .queueFull s => kill s c
-             | r => r))
+             | .unsupported e => .unsupported e))
        | .unsubscribe topics id =>
          if x.subTok = 0 then .unsupported "subscribe tokens exhausted" else
          let s := s.setConn c { x with subTok := x.subTok - 1 }
@@ -396,50 +440,41 @@ def recv (s : BState) (c : ConnId) (p : Packet) : Res :=
           | none => .unsupported "no session"
           | some b =>
             let b := topics.foldl (fun b t => { b with subs := Tree.emptyTopic t b.subs }) b
-            .ok (ackVia (s.setSessOf c b) c (.unsuback id) (fun s => s)))
+            .one (ackVia (s.setSessOf c b) c (.unsuback id) (fun s => s)))
        | .publish m _dup id =>
-         if m.qos = 0 then
-           (match backendPublish s c m with
-            | .queueFull s => kill s c
-            | r => r)
+         if m.qos = 0 then publishThen s c m .one
          else if x.pubTok = 0 then .unsupported "publish tokens exhausted"
          else
            let s := s.setConn c { x with pubTok := x.pubTok - 1 }
            if m.qos = 1 then
-             (match backendPublish s c m with
-              | .ok s => .ok (ackVia s c (.puback id) (fun s => s))
-              | .queueFull s => kill s c
-              | r => r)
+             publishThen s c m fun s => .one (ackVia s c (.puback id) (fun s => s))
            else
              (match s.sessOf c with
               | none => .unsupported "no session"
               | some b =>
                 let b := { b with sess := b.sess.savePacket .incoming p }
-                .ok ((s.setSessOf c b).updConn c fun x => { x with procOut := x.procOut ++ [.pubrec id] }))
+                .one ((s.setSessOf c b).updConn c fun x => { x with procOut := x.procOut ++ [.pubrec id] }))
        | .pubrel id =>
          (match s.sessOf c with
           | none => .unsupported "no session"
           | some b =>
             (match b.sess.lookupPacket .incoming id with
              | some (.publish m _ _) =>
-               (match backendPublish s c m with
-                | .ok s => .ok (ackVia s c (.pubcomp id) (ackPre c (.pubcomp id)))
-                | .queueFull s => kill s c
-                | r => r)
-             | _ => .ok (s.updConn c fun x => { x with procOut := x.procOut ++ [.pubcomp id] })))
+               publishThen s c m fun s => .one (ackVia s c (.pubcomp id) (ackPre c (.pubcomp id)))
+             | _ => .one (s.updConn c fun x => { x with procOut := x.procOut ++ [.pubcomp id] })))
        | .puback id | .pubcomp id =>
          (match s.sessOf c with
           | none => .unsupported "no session"
           | some b =>
             let s := s.setSessOf c { b with sess := b.sess.deletePacket .outgoing id }
-            .ok (s.updConn c (putDeq s.cfg)))
+            .one (s.updConn c (putDeq s.cfg)))
        | .pubrec id =>
          (match s.sessOf c with
           | none => .unsupported "no session"
           | some b =>
             let s := s.setSessOf c { b with sess := b.sess.savePacket .outgoing (.pubrel id) }
-            .ok (s.updConn c fun x => { x with procOut := x.procOut ++ [.pubrel id] }))
-       | .pingreq => .ok (s.updConn c fun x => { x with procOut := x.procOut ++ [.pingresp] })
+            .one (s.updConn c fun x => { x with procOut := x.procOut ++ [.pubrel id] }))
+       | .pingreq => .one (s.updConn c fun x => { x with procOut := x.procOut ++ [.pingresp] })
        | .disconnect =>
          kill (s.setConn c { x with will := none, phase := .disconnected }) c
        | _ => kill s c)
@@ -454,17 +489,17 @@ inductive Stim where
   | tokenTimeout (c : ConnId)            -- the token timeout of a blocked dequeuer expires
 
 def killAll (s : BState) : List ConnId → Res
-  | [] => .ok s
-  | c :: rest => bind (kill s c) (fun s => killAll s rest)
+  | [] => .one s
+  | c :: rest => Res.bind (kill s c) (fun s => killAll s rest)
 
 def stim (s : BState) : Stim → Res
-  | .conn c => .ok (s.setConn c {})
+  | .conn c => .one (s.setConn c {})
   | .send c p => recv s c p
   | .drop c => kill s c
   | .ackRelease =>
     let s' := s.pendingAcks.foldl (fun s a =>
       (ackPre a.conn a.pkt s).updConn a.conn (fun x => if x.alive then { x with ackOut := x.ackOut ++ [a.pkt] } else x)) s
-    .ok { s' with pendingAcks := [] }
+    .one { s' with pendingAcks := [] }
   | .backendClose =>
     let s := { s with closing := true }
     killAll s ((s.conns.filter (fun e => e.2.alive ∧ e.2.sref ≠ .none)).map (·.1))
@@ -545,21 +580,22 @@ def observeSent (s : BState) (c : ConnId) (p : Packet) : Option BState :=
         | .publish m false id, some b => if x.alive then acceptDelivery s c x b m id else none
         | _, _ => none
 
-def observe (s : BState) : Obs → Option BState
-  | .backend e => if s.bevents.contains e then some { s with bevents := s.bevents.erase e } else none
+/-- the states reachable by accepting one observation (empty = not an enabled output) -/
+def observe (s : BState) : Obs → List BState
+  | .backend e => if s.bevents.contains e then [{ s with bevents := s.bevents.erase e }] else []
   | .closed c =>
     (match s.conn? c with
-     | some x => if !x.alive ∧ !x.closedSeen then some (s.setConn c { x with closedSeen := true }) else none
-     | none => none)
-  | .sent c p => observeSent s c p
+     | some x => if !x.alive ∧ !x.closedSeen then [s.setConn c { x with closedSeen := true }] else []
+     | none => [])
+  | .sent c p => (observeSent s c p).toList
   | .sendFail c p =>
     -- the write was attempted (all bookkeeping done), the transport failed, the connection dies
     (match observeSent s c p with
      | some s' =>
        (match kill s' c with
-        | .ok s'' => some (s''.updConn c fun x => { x with procOut := [], ackOut := [] })
-        | _ => none)
-     | none => none)
+        | .ok ss => ss.map (fun s'' => s''.updConn c fun x => { x with procOut := [], ackOut := [] })
+        | .unsupported _ => [])
+     | none => [])
 
 /-- at quiescence nothing that had to go out is pending -/
 def settleConn (s : BState) (c : ConnId) (x : BConn) : Option String :=
